@@ -89,8 +89,20 @@ def rope_job(jid, program, observe=('basic',), flavour='mir'):
                         var = z3.BitVec('s%d_%d' % (len(syms), i), 64); s.pc.append(z3.ULE(var, n + 1)); ab.append(IntV(var, 'usize'))
                     else: ab.append(IntV(x, 'usize'))
                 syms.append(ab)
-                rng = Agg(ab, 'Range')
-                for kind, s2, v in api.call(m, s, ROPE + '::get_byte_slice::<std::ops::Range<usize>>', [regs[step[1]], rng]):
+                form = step[4] if len(step) > 4 else 'range'
+                FORMS = {'range': ('std::ops::Range<usize>', lambda a, b: Agg([a, b], 'Range')),
+                         'to': ('std::ops::RangeTo<usize>', lambda a, b: Agg([b], 'RangeTo')),
+                         'to_incl': ('std::ops::RangeToInclusive<usize>', lambda a, b: Agg([b], 'RangeToInclusive')),
+                         'from': ('std::ops::RangeFrom<usize>', lambda a, b: Agg([a], 'RangeFrom')),
+                         'incl': ('std::ops::RangeInclusive<usize>', lambda a, b: Agg([a, b, False], 'RangeInclusive'))}
+                tyname, mk = FORMS[form]
+                rng = mk(ab[0], ab[1])
+                # effective half-open byte range [ea, eb) of the form (mathematical integers: ..=usize::MAX style overflow is outside the bound)
+                if form == 'to': ab = [IntV(0, 'usize'), ab[1]]
+                elif form == 'to_incl': ab = [IntV(0, 'usize'), binop('Add', ab[1], IntV(1, 'usize'))]
+                elif form == 'from': ab = [ab[0], IntV(n, 'usize')]
+                elif form == 'incl': ab = [ab[0], binop('Add', ab[1], IntV(1, 'usize'))]
+                for kind, s2, v in api.call(m, s, ROPE + '::get_byte_slice::<%s>' % tyname, [regs[step[1]], rng]):
                     J.paths += 1
                     mf2 = lambda mdl, s2=s2: {'family': 'rope', 'program': conc_program(mdl, program, s2), 'observe': list(observe)}
                     if kind != 'ret':
@@ -116,6 +128,19 @@ def rope_job(jid, program, observe=('basic',), flavour='mir'):
                         nxt.append((s2, flats + [flats[step[1]][a_:b_]], descs))
                         J.see('slice_some')
                     else: J.see('slice_none')
+            elif op == 'line':
+                # ['line', r, k]: the k-th item of r.lines() becomes a new register (every observer then applies to it)
+                k_, itv = one(m, s, ROPE + '::lines_impl', [regs[step[1]], True])
+                itr = Ref(Cell(itv)); items = []
+                while True:
+                    k_, v = one(m, s, "<rope::Lines<'_, '_> as Iterator>::next", [itr])
+                    if v.disc == 0: break
+                    items.append(v.payload[1].f[0])
+                    if len(items) > 40: raise Inconclusive('lines() yields more than 40 items')
+                exp = split_flat(flats[step[1]], True)
+                if len(items) != len(exp) or step[2] >= len(items):
+                    J.fail_path(m, s, 'C16: lines() yields %d lines, the flat string has %d' % (len(items), len(exp)), mf); continue
+                regs.append(Ref(Cell(items[step[2]]))); nxt.append((s, flats + [exp[step[2]]], descs))
             else:
                 raise Inconclusive('rope program step ' + op)
         states = nxt
@@ -152,7 +177,7 @@ def conc_program(mdl, program, st):
             for i, x in enumerate(step[2:4]):
                 ab.append(mval(mdl, z3.BitVec('s%d_%d' % (si[0], i), 64)) if x == '?' else x)
             si[0] += 1
-            out.append(['slice', step[1]] + ab)
+            out.append(['slice', step[1]] + ab + list(step[4:5]))
         else: out.append(list(step))
     return out
 
